@@ -2786,3 +2786,29 @@ package goatlang
 //@   ensures#delta len(vm.stack) >= old(len(vm.stack)) - argc
 //@   ensures#below forall j int :: 0 <= j && j < old(len(vm.stack)) - argc ==> vm.stack[j] == old(vm.stack[j])
 //@   callsite#args NewFunc.f: len(arg_args) == argc && (forall j int :: 0 <= j && j < argc ==> arg_args[j] == old(vm.stack[len(vm.stack) - argc + j]))
+
+// ---------------------------------------------------------------------------------------------
+// Layer P (thin parser contracts): shape facts of the tree that the compile cases rely on.
+// ---------------------------------------------------------------------------------------------
+//@ func (*parser).Expression
+//@   property C06
+//@   trusted
+//@   modifies *
+//@ func (*parser).Block
+//@   property C06
+//@   trusted
+//@   modifies *
+//@ func (*parser).Advance
+//@   property C06
+//@   trusted
+//@   modifies *
+//@ -- an if / else-if chain nests: every part of a link (init, condition, block, else) is appended
+//@ -- to that link, and the next `if` becomes the else child of the current link
+//@ func ifNud
+//@   property C06 C07
+//@   requires p != nil && t != nil
+//@   modifies *
+//@   callsite#link (*token).Append: arg_t == t
+//@   ensures#top result == old(t)
+//@ func ifNud loop 0
+//@   invariant top == old(t) && p != nil
